@@ -156,6 +156,8 @@ def gen_problem(cfg, backward=False):
             for j in range(i + 1, n):
                 if i in ancestors(parent, j) or j in ancestors(parent, i):
                     continue
+                if cfg.get('link_pairs') is not None and (i, j) not in cfg['link_pairs']:
+                    continue
                 c = choose(f'lk{i}_{j}', 3)
                 if c == 1:
                     links.append((i, j))
@@ -391,25 +393,28 @@ PLAIN = {'milestones': False, 'resources': ['r'], 'calendars': ['default'], 'bal
          'spent_none': False}
 
 FWD_QUICK_PROFILES = {
-    'n3-plain': dict(PLAIN, n=3, scenarios=[(0, -1), (5, 1)]),
+    'n3-plain': dict(PLAIN, n=3, scenarios=[(0, -1)]),
+    'n2-plain-late-clock': dict(PLAIN, n=2, scenarios=[(5, 1), (3, 3)]),
     'n2-milestones': dict(PLAIN, n=2, milestones=True, scenarios=[(0, -1), (4, 0)]),
     'n2-none-values': dict(PLAIN, n=2, est_none=True, spent_none=True, default_estimate=True, scenarios=[(0, -1)]),
-    'n2-resources': dict(PLAIN, n=2, resources=['r', 'q'], calendars=['sparse', 'fraction'], grid=8, scenarios=[(5, 0)]),
+    'n2-resources': dict(PLAIN, n=2, resources=['r', 'q'], calendars=['sparse'], scenarios=[(5, 0)]),
+    'n2-fraction': dict(PLAIN, n=2, calendars=['fraction'], grid=8, E=6, scenarios=[(1, -1)]),
     'n2-unbalanced': dict(PLAIN, n=2, balance=[False], scenarios=[(0, -1), (4, 2)]),
     'n3-summary-values': dict(PLAIN, n=3, summary_values=True, links=False, scenarios=[(2, -1)]),
     'n2-min-start': dict(PLAIN, n=2, min_start=True, milestones=True, min_start_offsets=[-1, 1, 2], dates_on=1, scenarios=[(1, 0)]),
     'n2-fixed': dict(PLAIN, n=2, fixed=True, fixed_offsets=[-2, 1], dates_on=0, scenarios=[(1, 0), (0, 2), (2, -1)]),
-    'n3-two-resources': dict(PLAIN, n=3, resources=['r', 'q'], E=10, scenarios=[(0, -1)]),
+    'n3-two-resources': dict(PLAIN, n=3, fixed_parent=[-1, -1, 1], resources=['r', 'q'], E=10, scenarios=[(0, -1)]),
 }
 
 BWD_QUICK_PROFILES = {
     'n3-plain': dict(PLAIN, n=3, scenarios=[(0, -1), (5, -1)]),
     'n2-milestones': dict(PLAIN, n=2, milestones=True, scenarios=[(0, -1), (4, -1)]),
     'n2-none-values': dict(PLAIN, n=2, est_none=True, spent_none=True, default_estimate=True, scenarios=[(0, -1)]),
-    'n2-resources': dict(PLAIN, n=2, resources=['r', 'q'], calendars=['sparse', 'fraction'], grid=8, scenarios=[(1, -1), (5, -1)]),
+    'n2-resources': dict(PLAIN, n=2, resources=['r', 'q'], calendars=['sparse'], scenarios=[(5, -1)]),
+    'n2-fraction': dict(PLAIN, n=2, calendars=['fraction'], grid=8, E=6, scenarios=[(1, -1)]),
     'n2-unbalanced': dict(PLAIN, n=2, balance=[False], scenarios=[(0, -1), (4, -1)]),
     'n3-summary-values': dict(PLAIN, n=3, summary_values=True, links=False, scenarios=[(2, -1)]),
-    'n3-two-resources': dict(PLAIN, n=3, resources=['r', 'q'], E=10, scenarios=[(0, -1)]),
+    'n3-two-resources': dict(PLAIN, n=3, fixed_parent=[-1, -1, 1], resources=['r', 'q'], E=10, scenarios=[(0, -1)]),
 }
 
 FULL = {'milestones': True, 'resources': ['r', 'q'], 'calendars': ['default', 'sparse', 'fraction', 'composed'],
